@@ -32,6 +32,7 @@ var (
 	stubBackup = flag.Bool("stub-backup", false, "replace (*badger.DB).Backup by a no-op in controlled mode")
 	access  = flag.Bool("access", false, "instrument struct-field accesses (C18 build)")
 	consts  strList
+	chancap strList
 	pkgs    strList
 	choices strList
 )
@@ -43,6 +44,7 @@ func die(format string, a ...any) {
 
 func main() {
 	flag.Var(&consts, "const", "pkgname.constName=value (repeatable)")
+	flag.Var(&chancap, "chancap", "pkgname.FuncName=N: capacity of channels made in that function (repeatable; declared scaling)")
 	flag.Var(&pkgs, "pkg", "package pattern to instrument (repeatable)")
 	flag.Var(&choices, "choice", "pkgname.FuncName: map ranges in this function are data choice points (repeatable)")
 	flag.Parse()
@@ -420,6 +422,13 @@ func (r *rewriter) rewriteCall(n *ast.CallExpr) ast.Node {
 				var size ast.Expr = &ast.BasicLit{Kind: token.INT, Value: "0"}
 				if len(n.Args) == 2 {
 					size = n.Args[1]
+				}
+				for _, cc := range chancap {
+					kv := strings.SplitN(cc, "=", 2)
+					if len(kv) == 2 && kv[0] == r.pkg.Name+"."+r.curFunc() {
+						size = &ast.BasicLit{Kind: token.INT, Value: kv[1]}
+						r.stats["make.chan.scaled"]++
+					}
 				}
 				r.stats["make.chan"]++
 				return call(&ast.IndexExpr{X: r.vs("MakeChan"), Index: ct.Value}, size)
